@@ -98,16 +98,19 @@ class _YieldGroups(Contract):
             if ce is not None:
                 q0 = ctx.fresh("q", INT)
                 cx.prove("lemma: the mask covers the run", zint(ce.n) == end - start)
-                cx.prove("lemma: the mask flags the non-missing elements of the run",
-                         z3.Implies(in_range(q0, end - start), zbool(ce.g(q0)) == z3.Not(na_formula(it, x.sym["kind"], x.sym["elem"](start + q0)))))
+                cx.lemma_forall("lemma: the mask flags the non-missing elements of the run",
+                                 lambda q: z3.Implies(in_range(q, end - start),
+                                                      zbool(ce.g(q)) == z3.Not(na_formula(it, x.sym["kind"], x.sym["elem"](start + q)))), base="q")
             cx.prove("ghost: the code's mask enumeration is available", ce is not None)
             if ce is not None:
                 nonna = lambda q: z3.Not(na_formula(it, x.sym["kind"], x.sym["elem"](start + q)))
                 cx.prove("slice t: its length is the number of selected positions", zint(sl.len) == ce.cnt)
-                cx.prove("slice t: element j is the j-th non-missing element of the run (positions increase)",
-                         z3.Implies(in_range(j, ce.cnt), z3.And(in_range(ce.idx(j), end - start), nonna(ce.idx(j)),
-                                                                M.to_v(it, sl.seq.at(j)) == x.sym["elem"](start + ce.idx(j)),
-                                                                z3.Implies(j + 1 < ce.cnt, ce.idx(j) < ce.idx(j + 1)))))
+                # one obligation per conjunct (each proved clause is available to the next; small queries are the stable ones)
+                cx.prove("slice t: element j comes from a position of the run", z3.Implies(in_range(j, ce.cnt), in_range(ce.idx(j), end - start)))
+                cx.prove("slice t: element j is not missing", z3.Implies(in_range(j, ce.cnt), nonna(ce.idx(j))))
+                cx.prove("slice t: element j is the j-th non-missing element of the run",
+                         z3.Implies(in_range(j, ce.cnt), M.to_v(it, sl.seq.at(j)) == x.sym["elem"](start + ce.idx(j))))
+                cx.prove("slice t: positions increase", z3.Implies(z3.And(in_range(j, ce.cnt), j + 1 < ce.cnt), ce.idx(j) < ce.idx(j + 1)))
                 cx.prove("slice t: every non-missing element of the run is in it",
                          z3.Implies(z3.And(in_range(q0, end - start), nonna(q0)),
                                     z3.And(in_range(ce.rk(q0), ce.cnt), ce.idx(ce.rk(q0)) == q0)))
@@ -208,7 +211,7 @@ class UseNumbaEligibility(Contract):
     """use_numba(x): the accelerated twin is chosen only when USE_NUMBA is on and the column is boolean, integer
     (incl. timedelta, which NumPy files under integer), float or datetime."""
     file, qualname, prop = F, "use_numba", "C08"
-    also = ("C07",)             # with Numba installed the group-wise helpers of C07 run through the compiled twins by default
+    also = ("C07", "C04")       # with Numba installed the group-wise helpers of C07 run through the compiled twins by default
     always_bounded = True       # the JIT / cache / compile-order part of C08 exists only as a bounded run-time contract
 
     def setup(self, cx):
@@ -544,7 +547,7 @@ def _mk_group_helper(name, drop):
                 j = ctx.fresh("j", INT)
                 ob = cx.prove("lemma: no element of the run is missing", z3.Implies(in_range(j, end - start), z3.Not(na_formula(it, kind, xe(start + j)))))
                 if ob.status == "unsat":
-                    flt.enum.assume_total(ctx)       # j was arbitrary: the filter's predicate holds on the whole run
+                    flt.enum.assume_total(ctx, instances=[j])       # j was arbitrary: the filter's predicate holds on the whole run
                 cx.prove("lemma: runs are non-empty ranges", z3.And(0 <= start, start < end, end <= zint(n)))
                 cx.prove("lemma: the non-missing subsequence of the run has the run's length", zint(flt.len) == end - start)
                 cx.prove("lemma: ... and the run's elements", z3.Implies(in_range(j, end - start), flt.at(j) == plain.at(j)))
@@ -623,7 +626,7 @@ class _GroupForm(Contract):
             j = ctx.fresh("j", INT)
             ob = cx.prove("lemma: no element of the run is missing", z3.Implies(in_range(j, end - start), z3.Not(na_formula(it, kind, xe(start + j)))))
             if ob.status == "unsat":
-                flt.enum.assume_total(ctx)
+                flt.enum.assume_total(ctx, instances=[j])
             cx.prove("lemma: runs are non-empty ranges", z3.And(0 <= start, start < end, end <= zint(n)))
             cx.prove("lemma: the non-missing subsequence of the run has the run's length", zint(flt.len) == end - start)
             cx.prove("lemma: ... and the run's elements", z3.Implies(in_range(j, end - start), flt.at(j) == plain_raw.at(j)))
